@@ -27,6 +27,9 @@ theorem Sim.setVec (h : Sim c it σ s) (d : VReg) (f : Nat → Nat) {x : VSym}
   · simp only [hv, if_true]; exact hx
   · simp only [hv, if_false]; exact h.vec v
 
+theorem Sim.setFlags (h : Sim c it σ s) (z cf : Option Bool) : Sim c it σ (setFlags s z cf) :=
+  ⟨h.gp, h.vec, h.mem, h.stores_ok⟩
+
 theorem linVal_add (c : Ctx) (it a t k d : Nat) : (linVal c it a t k + d) % M64 = linVal c it a t (k + d) := by
   unfold linVal
   rw [Nat.mod_add_mod]
@@ -241,11 +244,11 @@ theorem step_addqImm (h : Sim c it σ s) {loop : Bool} {imm : Nat} {d : Reg}
     cases b with
     | none =>
       simp only [GRefines] at hg
-      refine ⟨_, by simp only [stepInstr, hg]; rfl, h.setGp d ?_, rfl⟩
+      refine ⟨_, by simp only [stepInstr, hg]; rfl, (h.setGp d ?_).setFlags _ _, rfl⟩
       simp only [GRefines, linVal_add]
     | some r =>
       simp only [GRefines] at hg
-      refine ⟨_, by simp only [stepInstr, hg]; rfl, h.setGp d ?_, rfl⟩
+      refine ⟨_, by simp only [stepInstr, hg]; rfl, (h.setGp d ?_).setFlags _ _, rfl⟩
       simp only [GRefines, linVal_add]
   · exact absurd hs (by simp)
 
@@ -264,11 +267,11 @@ theorem step_addqReg (h : Sim c it σ s) {loop : Bool} {src d : Reg}
     cases b with
     | none =>
       simp only [GRefines] at hg2
-      refine ⟨_, by simp only [stepInstr, hg, hg2]; rfl, h.setGp d ?_, rfl⟩
+      refine ⟨_, by simp only [stepInstr, hg, hg2]; rfl, (h.setGp d ?_).setFlags _ _, rfl⟩
       simp only [GRefines, linVal_add_lin]
     | some r =>
       simp only [GRefines] at hg2
-      refine ⟨_, by simp only [stepInstr, hg, hg2]; rfl, h.setGp d ?_, rfl⟩
+      refine ⟨_, by simp only [stepInstr, hg, hg2]; rfl, (h.setGp d ?_).setFlags _ _, rfl⟩
       simp only [GRefines, linVal_add_lin]
   · rename_i r a t k a' t' k' heq heq2
     simp only [Option.some.injEq] at hs
@@ -278,7 +281,7 @@ theorem step_addqReg (h : Sim c it σ s) {loop : Bool} {src d : Reg}
     rw [heq] at hg
     rw [heq2] at hg2
     simp only [GRefines] at hg hg2
-    refine ⟨_, by simp only [stepInstr, hg, hg2]; rfl, h.setGp d ?_, rfl⟩
+    refine ⟨_, by simp only [stepInstr, hg, hg2]; rfl, (h.setGp d ?_).setFlags _ _, rfl⟩
     simp only [GRefines, linVal_add_lin, Nat.add_comm]
   · exact absurd hs (by simp)
 
@@ -294,7 +297,14 @@ theorem step_shrqImm (h : Sim c it σ s) {loop : Bool} {imm : Nat} {d : Reg}
       have hg := h.gp d
       rw [heq] at hg
       simp only [GRefines] at hg
-      refine ⟨_, by simp only [stepInstr, hg, if_pos hcond.1]; rfl, h.setGp d ?_, rfl⟩
+      have hpos : 0 < imm := by
+        rcases Nat.eq_zero_or_pos imm with h0 | h0
+        · exfalso
+          have h2 := hcond.2
+          rw [h0] at h2
+          rcases RSV.Props.C08.C08_gran c.cfg.fam c.cfg.O with hB | hB <;> (unfold Cfg.B at h2; omega)
+        · exact h0
+      refine ⟨_, by simp only [stepInstr, hg, if_pos (And.intro hpos hcond.1)]; rfl, (h.setGp d ?_).setFlags _ _, rfl⟩
       simp only [GRefines, Ctx.cnt, ← hcond.2, Nat.shiftRight_eq_div_pow]
     · exact absurd hs (by simp)
   · exact absurd hs (by simp)
